@@ -4,7 +4,7 @@
      family 7  IPNetwork.subnet: Splitter.subnet_list is the exhaustion of the Subnet generator (no second model);
                its closed form `subnets_of` (Proofs/C20) is restated here *)
 From NV Require Import Base.Tac Base.PyVal Base.Bits Model.Ip.
-From NV Require Model.Subnet Model.ListLike Model.Splitter Model.Partition.
+From NV Require Model.Subnet Model.ListLike Model.Splitter Model.Partition Model.Nmap.
 From NV Require Proofs.C09 Proofs.C20.
 Open Scope Z_scope.
 
@@ -137,4 +137,15 @@ Proof.
   unfold Splitter.subnet_list, Subnet.subnet_take.
   destruct (Subnet.subnet_start w c q count) as [[g|]|e]; cbn [bind]; [|reflexivity|reflexivity].
   destruct (Subnet.gen_take _ _ g); reflexivity.
+Qed.
+
+(* ================================================================ `for ip in net` *)
+(* Python: IPListMixin.__iter__ as consumed by nmap._parse_nmap_target_spec (`for ip in IPNetwork(spec)`): Nmap lists
+   range(first, last + 1); ListLike (C10) proves that the iterator yields r_addresses.  Same list, every network. *)
+Lemma zseq_arith n : forall lo, Nmap.zseq lo n = ListLike.arith_list n lo 1.
+Proof. induction n as [|k IH]; intros lo; cbn [Nmap.zseq ListLike.arith_list]; [reflexivity|]. rewrite IH. reflexivity. Qed.
+Theorem coh_nmap_net_addresses x :
+  Nmap.py_range (ListLike.r_first x) (ListLike.r_last x + 1) = ListLike.r_addresses x.
+Proof.
+  unfold Nmap.py_range, ListLike.r_addresses, ListLike.r_size. rewrite zseq_arith. f_equal. f_equal. lia.
 Qed.
